@@ -5,6 +5,12 @@ use identity_did::DID;
 use identity_iota_core::{IotaDID, NetworkName};
 use identity_core::convert::FromJson;
 
+const VALID_ID: &str = "did:iota:0x9999999999999999999999999999999999999999999999999999999999999999";
+/// StateMetadataDocument::unpack of hand-framed bytes ("DID", version 1, JSON encoding, length, body), then into_iota_document for VALID_ID
+fn unpacked(body: &serde_json::Value) -> Option<identity_iota_core::IotaDocument> {
+  let js = serde_json::to_vec(body).ok()?; let mut bytes = b"DID\x01\x00".to_vec(); bytes.extend((js.len() as u16).to_le_bytes()); bytes.extend(js);
+  identity_iota_core::StateMetadataDocument::unpack(&bytes).ok()?.into_iota_document(&IotaDID::parse(VALID_ID).ok()?).ok()
+}
 fn value_obs(d: &IotaDID, obs: &mut Vec<i64>) {
   obs.push(1);
   put_bytes(obs, d.to_string().as_bytes()); put_bytes(obs, d.network_str().as_bytes()); put_bytes(obs, d.tag_str().as_bytes());
@@ -80,6 +86,10 @@ pub fn exec(case: &[i64]) -> Outcome {
         identity_did::BaseDIDUrl::parse(&s).ok().and_then(|b| IotaDID::try_from(b).ok()),
         serde_json::from_value::<IotaDID>(serde_json::Value::String(s.clone())).ok(),
         identity_iota_core::IotaDocument::from_json_value(serde_json::json!({"doc": {"id": s}, "meta": {}})).ok().map(|d| d.id().clone()),
+        // the controller of a deserialised IotaDocument, and the id / controller of a document unpacked from state metadata, are handed out as IotaDIDs too
+        identity_iota_core::IotaDocument::from_json_value(serde_json::json!({"doc": {"id": VALID_ID, "controller": s}, "meta": {}})).ok().and_then(|d| d.controller().next().cloned()),
+        unpacked(&serde_json::json!({"doc": {"id": "did:0:0", "controller": s}, "meta": {}})).and_then(|d| d.controller().next().cloned()),
+        unpacked(&serde_json::json!({"doc": {"id": s}, "meta": {}})).map(|d| d.id().clone()),
       ];
       let mut obs = vec![]; let mut o_fail: Option<String> = None;
       for (k, r) in routes.iter().enumerate() { match r { None => obs.push(0), Some(d) => { value_obs(d, &mut obs); if let Some(w) = checks(d) { o_fail.get_or_insert(format!("route {k}: {w}")); } } } }
